@@ -90,18 +90,36 @@ class RuleCtx:
                                     str(expected)[:400], str(found)[:400] if found else (str(expected)[:400] if expected else ""),
                                     nontrivial=nontrivial, sample=_jsonable(sample) or None))
 
-    def fail(self, site, what, line=0, role="", expected="", found="", **sample):
+    OPAQUE_MARKERS = ("@phi", "@carried", "@undef", "@loop", "@exc", "@ctx", "local:", "<lambda@", "<call>", "<Name@", "<Await", "<Yield")
+
+    def fail(self, site, what, line=0, role="", expected="", found="", template=None, **sample):
+        """template: the term(s) the found value was compared with.  When given, and the found value mentions an opaque
+        atom (loop-carried variable, unresolved callable ...) that the template does not, the comparison is undecided."""
         q, f, l = self._site(site)
         if hasattr(line, "lineno"):
             line = line.lineno
+        ftxt = str(found)
+        hit = []
+        if template is not None:
+            import re as _re
+            toks = set(_re.findall(r"[\w.$]+@(?:phi|carried|undef|loop|exc|ctx)\w*|local:[\w.]+|<lambda@\d+>|<call>|<\w+@\d+>", ftxt))
+            etxt = " ".join(str(t) for t in (template if isinstance(template, (list, tuple)) else [template]))
+            hit = sorted(t for t in toks if t not in etxt)
+        if hit:
+            # the reconstructed value contains a construct the term language cannot express (loop-carried variable,
+            # unresolved callable ...): the comparison is undecided, never a verdict
+            self.obls.append(Obligation(self.rd.property_id, self.rd.rid, self.rd.kind, q, "error",
+                                        f"cannot decide `{what}`: the reconstructed value is outside the term language ({hit[0]}): {ftxt[:160]}",
+                                        f, line or l, role))
+            return
         self.obls.append(Obligation(self.rd.property_id, self.rd.rid, self.rd.kind, q, "fail", what, f, line or l, role,
                                     str(expected), str(found), sample=_jsonable(sample) or None))
 
-    def check(self, cond: bool, site, what, line=0, role="", expected="", found="", **sample):
+    def check(self, cond: bool, site, what, line=0, role="", expected="", found="", template=None, **sample):
         if cond:
             self.ok(site, what, role=role, line=line, expected=expected, found=found if found else "", **sample)
         else:
-            self.fail(site, what, line=line, role=role, expected=expected, found=found, **sample)
+            self.fail(site, what, line=line, role=role, expected=expected, found=found, template=template, **sample)
         return cond
 
     def error(self, site, what, line=0):
